@@ -338,3 +338,137 @@ Proof.
       unsubscribe_decode_np, unsubscribe_ack_decode_np, connect_decode_np, connect_ack_decode_np,
       disconnect_decode_np, auth_decode_np.
 Qed.
+
+(* ------------------------------------------------------------------ prefix stability:
+   a decoder that succeeded on s gives the same value on s ++ x and hands back rest ++ x *)
+Lemma dec_bool_app s x v r : dec_bool s = Ok (v, r) -> dec_bool (s ++ x) = Ok (v, r ++ x).
+Proof.
+  destruct s as [|a s]; cbn [dec_bool app]; [discriminate|]. destruct (a <=? 1); [|discriminate].
+  intros [= <- <-]. reflexivity.
+Qed.
+Lemma dec_u16_app s x v r : dec_u16 s = Ok (v, r) -> dec_u16 (s ++ x) = Ok (v, r ++ x).
+Proof. destruct s as [|a [|b s]]; cbn [dec_u16 app]; try discriminate. intros [= <- <-]. reflexivity. Qed.
+Lemma dec_u32_app s x v r : dec_u32 s = Ok (v, r) -> dec_u32 (s ++ x) = Ok (v, r ++ x).
+Proof.
+  destruct s as [|a [|b [|c [|d s]]]]; cbn [dec_u32 app]; try discriminate. intros [= <- <-]. reflexivity.
+Qed.
+Lemma dec_nz16_app s x v r : dec_nz16 s = Ok (v, r) -> dec_nz16 (s ++ x) = Ok (v, r ++ x).
+Proof.
+  unfold dec_nz16. intros H. apply bind_ok_inv in H as ([v' r'] & E & H).
+  rewrite (dec_u16_app _ x _ _ E). cbn [bind]. destruct (v' =? 0); [discriminate|].
+  injection H as <- <-. reflexivity.
+Qed.
+Lemma dec_nz32_app s x v r : dec_nz32 s = Ok (v, r) -> dec_nz32 (s ++ x) = Ok (v, r ++ x).
+Proof.
+  unfold dec_nz32. intros H. apply bind_ok_inv in H as ([v' r'] & E & H).
+  rewrite (dec_u32_app _ x _ _ E). cbn [bind]. destruct (v' =? 0); [discriminate|].
+  injection H as <- <-. reflexivity.
+Qed.
+Lemma split_to_app_le n (r x : bytes) : n <= len r -> split_to n (r ++ x) = (fst (split_to n r), snd (split_to n r) ++ x).
+Proof.
+  intros H. unfold split_to. cbn [fst snd].
+  rewrite firstn_app_le, skipn_app_le by (unfold len in *; lia). reflexivity.
+Qed.
+Lemma dec_bytes_app s x v r : dec_bytes s = Ok (v, r) -> dec_bytes (s ++ x) = Ok (v, r ++ x).
+Proof.
+  unfold dec_bytes. intros H. apply bind_ok_inv in H as ([n r0] & E & H).
+  rewrite (dec_u16_app _ x _ _ E). cbn [bind]. destruct (len r0 <? n) eqn:L; [discriminate|].
+  replace (len (r0 ++ x) <? n) with false by (rewrite llen_app; lia).
+  rewrite split_to_app_le by lia. destruct (split_to n r0) as [a b]. injection H as <- <-. reflexivity.
+Qed.
+Lemma dec_string_app s x v r : dec_string s = Ok (v, r) -> dec_string (s ++ x) = Ok (v, r ++ x).
+Proof.
+  unfold dec_string. intros H. apply bind_ok_inv in H as ([b r0] & E & H).
+  rewrite (dec_bytes_app _ x _ _ E). cbn [bind]. destruct (utf8_valid b); [|discriminate].
+  injection H as <- <-. reflexivity.
+Qed.
+Lemma dec_uprop_app s x v r : dec_uprop s = Ok (v, r) -> dec_uprop (s ++ x) = Ok (v, r ++ x).
+Proof.
+  unfold dec_uprop. intros H. apply bind_ok_inv in H as ([k r0] & E & H).
+  apply bind_ok_inv in H as ([w r1] & E1 & H).
+  rewrite (dec_string_app _ x _ _ E). cbn [bind]. rewrite (dec_string_app _ x _ _ E1). cbn [bind].
+  injection H as <- <-. reflexivity.
+Qed.
+Lemma dec_vi_app s x v r : dec_vi s = Ok (v, r) -> dec_vi (s ++ x) = Ok (v, r ++ x).
+Proof.
+  unfold dec_vi. intros H.
+  destruct s as [|a s]; cbn [dec_vi_go app] in *; [discriminate|].
+  destruct (a <? 128). { injection H as <- <-. reflexivity. }
+  destruct s as [|b s]; cbn [dec_vi_go app] in *; [discriminate|].
+  destruct (b <? 128). { injection H as <- <-. reflexivity. }
+  destruct s as [|c s]; cbn [dec_vi_go app] in *; [discriminate|].
+  destruct (c <? 128). { injection H as <- <-. reflexivity. }
+  destruct s as [|d s]; cbn [dec_vi_go app] in *; [discriminate|].
+  destruct (d <? 128); [|discriminate]. injection H as <- <-. reflexivity.
+Qed.
+Lemma take_properties_app s x v r : take_properties s = Ok (v, r) -> take_properties (s ++ x) = Ok (v, r ++ x).
+Proof.
+  unfold take_properties. intros H. apply bind_ok_inv in H as ([n r0] & E & H).
+  rewrite (dec_vi_app _ x _ _ E). cbn [bind]. destruct (len r0 <? n) eqn:L; [discriminate|].
+  replace (len (r0 ++ x) <? n) with false by (rewrite llen_app; lia).
+  rewrite split_to_app_le by lia. destruct (split_to n r0) as [a b]. injection H as <- <-. reflexivity.
+Qed.
+
+Lemma map_ok_inv {A B} (r : res (A * bytes)) (g : A -> B) w r' :
+  bind r (fun '(v, r0) => Ok (g v, r0)) = Ok (w, r') -> exists v, r = Ok (v, r') /\ w = g v.
+Proof. destruct r as [[v r0]| |]; cbn [bind]; try discriminate. intros [= <- <-]. eauto. Qed.
+
+Lemma dec_pval_app k s x v r : dec_pval k s = Ok (v, r) -> dec_pval k (s ++ x) = Ok (v, r ++ x).
+Proof.
+  destruct k; cbn [dec_pval]; intros H.
+  - apply map_ok_inv in H as (w & E & ->). now rewrite (dec_bool_app _ x _ _ E).
+  - apply map_ok_inv in H as (w & E & ->). now rewrite (dec_u16_app _ x _ _ E).
+  - apply map_ok_inv in H as (w & E & ->). now rewrite (dec_u32_app _ x _ _ E).
+  - apply map_ok_inv in H as (w & E & ->). now rewrite (dec_nz16_app _ x _ _ E).
+  - apply map_ok_inv in H as (w & E & ->). now rewrite (dec_nz32_app _ x _ _ E).
+  - apply map_ok_inv in H as (w & E & ->). now rewrite (dec_bytes_app _ x _ _ E).
+  - apply map_ok_inv in H as (w & E & ->). now rewrite (dec_string_app _ x _ _ E).
+  - destruct s as [|b s]; [discriminate|]. cbn [app]. destruct (qos_ok b); [|discriminate].
+    injection H as <- <-. reflexivity.
+  - apply bind_ok_inv in H as ([w r0] & E & H). rewrite (dec_vi_app _ x _ _ E). cbn [bind].
+    destruct (w =? 0); [discriminate|]. injection H as <- <-. reflexivity.
+  - apply map_ok_inv in H as (w & E & ->). now rewrite (dec_uprop_app _ x _ _ E).
+Qed.
+
+(* ------------------------------------------------------------------ the property loop: fuel is irrelevant
+   once it covers the input, and a block that parses can be extended *)
+Lemma parse_props_fuel f1 : forall f2 tbl acc s, (length s <= f1)%nat -> (length s <= f2)%nat ->
+  parse_props f1 tbl acc s = parse_props f2 tbl acc s.
+Proof.
+  induction f1 as [|f1 IH]; intros f2 tbl acc s H1 H2; destruct s as [|id r]; cbn [length] in *; try lia.
+  - destruct f2; reflexivity.
+  - destruct f2; reflexivity.
+  - destruct f2 as [|f2]; [lia|]. cbn [parse_props]. destruct (tbl id) as [[k once]|]; [|reflexivity].
+    destruct (negb (once && bag_has id acc)); cbn [ensure bind]; [|reflexivity].
+    pose proof (dec_pval_gd k r) as G. destruct (dec_pval k r) as [[v r']| |]; cbn [bind gd] in *; try reflexivity.
+    apply IH; lia.
+Qed.
+
+Lemma parse_props_app f tbl : forall acc pre bag rest, (length pre <= f)%nat ->
+  parse_props f tbl acc pre = Ok bag ->
+  parse_props (f + length rest) tbl acc (pre ++ rest) = parse_props (length rest) tbl (rev bag) rest.
+Proof.
+  induction f as [|f IH]; intros acc pre bag rest Hl H.
+  - destruct pre; [|cbn [length] in Hl; lia]. cbn [parse_props] in H. injection H as <-.
+    rewrite rev_involutive. reflexivity.
+  - destruct pre as [|id r].
+    + cbn [parse_props] in H. injection H as <-. rewrite rev_involutive. cbn [app].
+      apply parse_props_fuel; lia.
+    + cbn [parse_props app Nat.add length] in *. destruct (tbl id) as [[k once]|]; [|discriminate].
+      destruct (negb (once && bag_has id acc)); cbn [ensure bind] in *; [|discriminate].
+      pose proof (dec_pval_gd k r) as G.
+      destruct (dec_pval k r) as [[v r']| |] eqn:E; cbn [bind gd] in *; try discriminate.
+      rewrite (dec_pval_app _ _ rest _ _ E). cbn [bind]. apply IH; [lia|exact H].
+Qed.
+
+Lemma props_of_app tbl pre bag rest :
+  props_of tbl pre = Ok bag -> props_of tbl (pre ++ rest) = parse_props (length rest) tbl (rev bag) rest.
+Proof.
+  unfold props_of. intros H. rewrite app_length. apply parse_props_app; [lia|exact H].
+Qed.
+
+Lemma bag_has_rev id b : bag_has id (rev b) = bag_has id b.
+Proof.
+  unfold bag_has. induction b as [|e b IH]; [reflexivity|].
+  cbn [rev existsb]. rewrite existsb_app, IH. cbn [existsb]. rewrite orb_false_r. apply orb_comm.
+Qed.
